@@ -11,9 +11,16 @@ import Model.RBTree
   would spin); every caller passes `nodes.size + 2`, more than the length of any path of a well-formed tree.
 
 The driver `drv_c06` runs this model in lock-step with the functional model `RB.Tree` on every `ins` / `rem` line and
-compares `toT` (the tree read off the links, with every parent link checked) with the functional tree; the node dump
-that is compared with the real Go nodes is printed from THIS structure.  `Lemmas/RBHeap.lean` proves that the two
-rotations keep every parent link consistent and are the functional `rotL` / `rotR` at the node they are applied to. -/
+compares `abs` (the tree read off the links, with every parent link checked) with the functional tree; the node dump
+that is compared with the real Go nodes is printed from THIS structure.
+
+Theorems (`Props/C06.lean`, section "the pointer-level model"): `heap_run_refines` — for every history and every compare
+function the run of this model is defined (no nil dereference, every loop within its fuel), its memory represents a tree
+(`PTree.Rep`: `t.root` without parent, every parent link the node above, distinct addresses) and `abs` / `count` are the
+functional `Tree.run`; per operation `heap_insert_refines`, `heap_remove_refines`, `rotations_keep_parent_links`,
+`heap_find_first`, `heap_abs_of_owns`.  Lemma files: `Lemmas/RBHeap.lean` (ownership, frame rule), `RBHeapRot.lean`
+(rotations), `RBHeapRead.lean` (`abs`, `find`), `RBHeapCtx.lean` (contexts), `RBHeapIns.lean` (`Insert`),
+`RBHeapDel.lean` (`recolor`), `RBHeapRem.lean` (`Remove`, histories). -/
 namespace RB
 
 abbrev Ptr := Option Nat
